@@ -493,6 +493,32 @@ struct GlyphModel {
     big: bool,
 }
 
+/// The points of a source glyph with its components (offsets or anchor points, no transforms) composed.
+fn flat_points(glyphs: &[GlyphModel], gid: usize, depth: usize) -> Vec<(i32, i32)> {
+    let g = match glyphs.get(gid) {
+        Some(g) if depth <= 4 => g,
+        _ => return Vec::new(),
+    };
+    match g.kind {
+        Kind::Composite => {
+            let mut acc: Vec<(i32, i32)> = Vec::new();
+            for c in &g.comps {
+                let child = flat_points(glyphs, c.glyph as usize, depth + 1);
+                let off = match c.args {
+                    CompArgs::Offset(x, y) => (x as i32, y as i32),
+                    CompArgs::Points(p, q) => match (acc.get(p as usize), child.get(q as usize)) {
+                        (Some(a), Some(b)) => (a.0 - b.0, a.1 - b.1),
+                        _ => (0, 0),
+                    },
+                };
+                acc.extend(child.iter().map(|p| (p.0 + off.0, p.1 + off.1)));
+            }
+            acc
+        }
+        _ => g.coords.iter().map(|p| (p.0 as i32, p.1 as i32)).collect(),
+    }
+}
+
 /// What the oracle knows about a variable font (generated, or decoded from a fixture).
 struct Model {
     glyphs: Vec<GlyphModel>,
@@ -878,6 +904,45 @@ fn build(case: &Case) -> Built {
             m.record = glyf_composite(bbox, &comps);
             m.comps = comps;
             m.bbox = bbox;
+        }
+    }
+    // ---- shapes, pass 3: nesting. A composite whose components are all placed by offsets may
+    // get one more component that is itself a (one-level) composite, with a lower or a higher
+    // glyph id; inner composites never become outer ones, so there is no cycle.
+    {
+        let composite_ids: Vec<usize> = (0..glyphs.len()).filter(|i| glyphs[*i].kind == Kind::Composite && !glyphs[*i].comps.is_empty()).collect();
+        let mut inner: Vec<usize> = Vec::new();
+        let mut outer: Vec<usize> = Vec::new();
+        for &gi in &composite_ids {
+            let cs = match &case.glyphs[gi].shape {
+                ShapeSpec::Composite(cs) if !cs.is_empty() => cs,
+                _ => continue,
+            };
+            let wants = cs[0].target & 1 == 1 && glyphs[gi].comps.iter().all(|c| matches!(c.args, CompArgs::Offset(..))) && !inner.contains(&gi);
+            let cands: Vec<usize> = composite_ids.iter().copied().filter(|j| *j != gi && !outer.contains(j)).collect();
+            if !wants || cands.is_empty() {
+                continue;
+            }
+            let gj = cands[pick(cands.len(), cs[0].target.rotate_left(11))];
+            let (dx, dy) = (cs[0].dy / 2, cs[0].dx / 2);
+            let child = flat_points(&glyphs, gj, 0);
+            let mut acc = flat_points(&glyphs, gi, 0);
+            acc.extend(child.iter().map(|p| (p.0 + dx as i32, p.1 + dy as i32)));
+            if acc.iter().any(|p| p.0.abs() > 30_000 || p.1.abs() > 30_000) {
+                continue;
+            }
+            let m = &mut glyphs[gi];
+            m.comps.push(ComponentEnc { glyph: gj as u16, args: CompArgs::Offset(dx, dy), force_words: cs[0].force_words, round_to_grid: false });
+            m.bbox = (
+                acc.iter().map(|p| p.0).min().unwrap() as i16,
+                acc.iter().map(|p| p.1).min().unwrap() as i16,
+                acc.iter().map(|p| p.0).max().unwrap() as i16,
+                acc.iter().map(|p| p.1).max().unwrap() as i16,
+            );
+            m.n_points = m.comps.len();
+            m.record = glyf_composite(m.bbox, &m.comps);
+            inner.push(gj);
+            outer.push(gi);
         }
     }
     // ---- metrics: lsb = xMin - pp1 (empty glyph: xMin counts as 0, lsb 0 as the spec asks)
@@ -1682,6 +1747,12 @@ fn check_case_built(case: &Case, b: &Built, rec: &mut Rec) -> CaseResult {
     });
     rec.class_if(phantom_deltas, "phantom-deltas");
     rec.class_if(b.model.glyphs.iter().any(|g| g.kind == Kind::Composite && !g.tuples.is_empty()), "composite-with-deltas");
+    {
+        let gl = &b.model.glyphs;
+        let nested = |lower: bool| gl.iter().enumerate().any(|(gi, g)| g.comps.iter().any(|c| gl.get(c.glyph as usize).map_or(false, |t| t.kind == Kind::Composite) && ((gi < c.glyph as usize) == lower)));
+        rec.class_if(nested(true), "nested-composite:outer-id-lower");
+        rec.class_if(nested(false), "nested-composite:outer-id-higher");
+    }
     rec.class_if(b.model.glyphs.iter().any(|g| g.comps.iter().any(|c| matches!(c.args, CompArgs::Points(..)))), "composite-anchored");
     rec.class_if(b.model.glyphs.iter().any(|g| g.kind == Kind::Empty && !g.tuples.is_empty()), "empty-glyph-with-deltas");
     rec.class_if(b.model.glyphs.iter().any(|g| g.tuples.is_empty()), "glyph-without-variation-data");
